@@ -12,7 +12,8 @@
 //!      file names of 0,1,254,255 octets, Marker, Padding, Trust, MDC, Compressed, SED, SEIPD v1/v2, User Attribute
 //!      (jpeg v1 / unknown format / unknown version / unknown type, minimal and five-octet subpacket length), SKESK v4
 //!      + unknown versions, OPS v3/v6/unknown, PKESK v3/v6/unknown, Public Key / Public Subkey v3/v4/v6
-//!      (RSA, Ed25519, EdDSALegacy, ECDH, X25519, unknown), Signature v3/v4/v6/unknown with every subpacket kind)
+//!      (RSA, Ed25519, EdDSALegacy, ECDH, X25519, unknown; ECDSA/ECDH/EdDSALegacy on unknown curves whose OID arcs sit
+//!      on every base-128 boundary), GnuPG AEAD data (type 20), Signature v3/v4/v6/unknown with every subpacket kind)
 //!      with body lengths b-N..b+N-1 around b in {192, 256, 8384, 65536} plus small ones, framed in new format
 //!      (minimal and five-octet length), legacy format (minimal length type, and indeterminate), partial chunks.
 //!   A  API level: objects built or modified through the public API (UserId::from_str, Padding::new,
@@ -25,7 +26,8 @@
 //!   (d) re-parsing the output gives an equal value
 //!   (f) the independent RFC 9580 4.2 reader frames the library's output into the same (tag, body)
 //!   (g) the parsed value means what the octets say (User ID, Literal, Key Flags accessors)
-//!   (r) partial body lengths are rejected where RFC 9580 4.2.1.4 forbids them
+//!   (r) partial body lengths are rejected where RFC 9580 4.2.1.4 forbids them (first chunk 2^0..2^8 on every tag that
+//!       may carry them: 8, 9, 11, 18, 20, with the 512-octet chunk as accepted control; any partial length elsewhere)
 //!   (h) header level agreement with the independent codec
 //!   (panic) never a panic
 //! usage: c05_bounded <N> [replay-case-hex]
@@ -692,6 +694,18 @@ const ED_PUB: [u8; 32] = [
 const OID_ED25519_LEGACY: [u8; 9] = [0x2B, 0x06, 0x01, 0x04, 0x01, 0xDA, 0x47, 0x0F, 0x01];
 const OID_CV25519_LEGACY: [u8; 10] = [0x2B, 0x06, 0x01, 0x04, 0x01, 0x97, 0x55, 0x01, 0x05, 0x01];
 
+/// X.690 8.19: one OID sub-identifier, base 128, most significant group first, continuation bit on all but the last
+fn oid_arc(v: u32) -> Vec<u8> {
+    let mut groups = vec![(v & 0x7F) as u8];
+    let mut r = v >> 7;
+    while r > 0 {
+        groups.push(0x80 | (r & 0x7F) as u8);
+        r >>= 7;
+    }
+    groups.reverse();
+    groups
+}
+
 /// RFC 9580 5.2.3.7 / 5.12: minimal subpacket length octets
 fn sub_len_min(len: usize) -> Vec<u8> {
     if len <= 191 {
@@ -751,6 +765,7 @@ fn opaque_types() -> Vec<(String, u8, Vec<u8>)> {
         ("Compressed Data (zlib id, opaque)".into(), 8, vec![2]),
         ("SEIPD v1".into(), 18, vec![1]),
         ("SEIPD v2".into(), 18, cat(&[&[2, 9, 2, 6], &fill(32, 5)])),
+        ("GnuPG AEAD Data (type 20) v1 OCB".into(), 20, cat(&[&[1, 9, 2, 6], &fill(15, 20)])),
         ("SKESK v4 simple S2K".into(), 3, vec![4, 9, 0, 8]),
         ("SKESK v4 salted S2K".into(), 3, cat(&[&[4, 9, 1, 8], &salt8])),
         ("SKESK v4 iterated S2K".into(), 3, cat(&[&[4, 7, 3, 10], &salt8, &[0x60]])),
@@ -914,6 +929,32 @@ fn family_w_opaque(ctx: &mut Ctx) {
             all_framings(ctx, &format!("{kname} v4 ECDH Curve25519Legacy kdf {h}/{s}"), ktag, &cat(&[&[4], &ts, &[18, 10], &OID_CV25519_LEGACY, &p, &[3, 1, h, s]]), Kind::Canonical, &none, false);
         }
     }
+    // 7b. ECDSA / ECDH / EdDSALegacy keys on curves the library does not know: the OID is kept and written back.
+    //     OID arcs at every base-128 boundary, in every position after the (combined) first two arcs.
+    {
+        let ts = [0x5Eu8, 0x0B, 0xE1, 0x00];
+        // (the const-oid crate refuses a five-octet arc whose last octet is above 0x0f, so the largest arcs end in 0x08 / 0x0f)
+        let arcs: [u32; 14] = [0, 1, 127, 128, 16383, 16384, 2097151, 2097152, 268435455, 268435456, 0x1234_5608, 1 << 31, 0xFFFF_FF88, 0xFFFF_FF8F];
+        let point = mpi(&[0x04, 0xAA, 0xBB, 0xCC, 0xDD]);
+        let mut oids: Vec<(String, Vec<u8>)> = vec![];
+        for &a in &arcs {
+            // 1.3.a.1 / 1.3.6.1.4.1.a.1 / 1.3.6.1.4.1.11591.a (2nd, middle and last position)
+            oids.push((format!("1.3.{a}.1"), cat(&[&[0x2B], &oid_arc(a), &[1]])));
+            oids.push((format!("1.3.6.1.4.1.{a}.1"), cat(&[&[0x2B, 6, 1, 4, 1], &oid_arc(a), &[1]])));
+            oids.push((format!("1.3.6.1.4.1.11591.{a}"), cat(&[&[0x2B, 6, 1, 4, 1], &oid_arc(11591), &oid_arc(a)])));
+            oids.push((format!("1.3.{a}.{a}.2"), cat(&[&[0x2B], &oid_arc(a), &oid_arc(a), &[2]])));
+        }
+        // brainpoolP160r1 (1.3.36.3.3.2.8.1.1.1), not handled explicitly by the library
+        oids.push(("1.3.36.3.3.2.8.1.1.1".into(), vec![0x2B, 0x24, 3, 3, 2, 8, 1, 1, 1]));
+        for (kname, ktag) in [("Public Key", 6u8), ("Public Subkey", 14)] {
+            for (oname, oid) in &oids {
+                let l = [oid.len() as u8];
+                all_framings(ctx, &format!("{kname} v4 ECDSA on unknown curve {oname}"), ktag, &cat(&[&[4], &ts, &[19], &l, oid, &point]), Kind::Canonical, &none, false);
+                all_framings(ctx, &format!("{kname} v4 EdDSALegacy on unknown curve {oname}"), ktag, &cat(&[&[4], &ts, &[22], &l, oid, &point]), Kind::Canonical, &none, false);
+                all_framings(ctx, &format!("{kname} v4 ECDH on unknown curve {oname}"), ktag, &cat(&[&[4], &ts, &[18], &l, oid, &point, &[3, 1, 8, 7]]), Kind::Canonical, &none, false);
+            }
+        }
+    }
     // 8. User Attribute: one attribute subpacket, minimal and five-octet subpacket length
     {
         let mut uls = ls.clone();
@@ -991,6 +1032,7 @@ fn family_w_partial(ctx: &mut Ctx) {
         ("Symmetrically Encrypted Data", 9, vec![]),
         ("SEIPD v1", 18, vec![1]),
         ("Literal Data utf8", 11, cat(&[&[b'u', 0], &[0, 0, 0, 0]])),
+        ("GnuPG AEAD Data", 20, cat(&[&[1, 9, 2, 6], &[0x11; 15]])),
     ] {
         for (exps, fin) in [
             (vec![9u8], 0usize),
@@ -1007,15 +1049,31 @@ fn family_w_partial(ctx: &mut Ctx) {
             wire_case(ctx, &format!("{name} in partial chunks"), tag, &body, &Framing::Partial(exps), Kind::Canonical, &none);
         }
     }
-    // (r) first partial chunk shorter than 512 octets
-    for e in 0u8..9 {
-        let body = padded(&lit_prefix, (1usize << e) + 600, e as u32).unwrap();
-        let mut stream = frame(11, &body, &Framing::Partial(vec![e]));
-        stream.extend(sentinel_packet());
-        reject_case(ctx, &format!("Literal Data with first partial chunk of 2^{e} octets"), &stream);
+    // (r) first partial chunk shorter than 512 octets, for EVERY tag that may carry partial lengths;
+    //     the 512-octet first chunk is the accepted control
+    let gnupg_prefix = cat(&[&[1, 9, 2, 6], &[0x11; 15]]);
+    for (name, tag, prefix) in [
+        ("Compressed Data", 8u8, vec![0u8]),
+        ("Symmetrically Encrypted Data", 9, vec![]),
+        ("Literal Data", 11, lit_prefix.clone()),
+        ("SEIPD v1", 18, vec![1]),
+        ("GnuPG AEAD Data", 20, gnupg_prefix.clone()),
+    ] {
+        for e in 0u8..9 {
+            for fin in [prefix.len() + 5, 600] {
+                let body = padded(&prefix, (1usize << e) + fin, e as u32).unwrap();
+                let mut stream = frame(tag, &body, &Framing::Partial(vec![e]));
+                stream.extend(sentinel_packet());
+                reject_case(ctx, &format!("{name} (tag {tag}) with first partial chunk of 2^{e} octets"), &stream);
+            }
+        }
+        for fin in [0usize, 5, 600] {
+            let body = padded(&prefix, 512 + fin, fin as u32).unwrap();
+            wire_case(ctx, &format!("{name} (tag {tag}) with first partial chunk of 512 octets (control)"), tag, &body, &Framing::Partial(vec![9]), Kind::Canonical, &none);
+        }
     }
     // (r) partial body lengths on packets that are not data packets
-    for tag in [1u8, 2, 3, 4, 6, 10, 12, 13, 14, 17, 21] {
+    for tag in [1u8, 2, 3, 4, 5, 6, 7, 10, 12, 13, 14, 17, 19, 21] {
         for e in [9u8, 10] {
             let body = fill((1usize << e) + 7, tag as u32);
             let mut stream = frame(tag, &body, &Framing::Partial(vec![e]));
@@ -1447,7 +1505,9 @@ fn main() {
     let args: Vec<String> = std::env::args().collect();
     let n: usize = args.get(1).and_then(|s| s.parse().ok()).unwrap_or(2).max(2);
     let replay: Option<u64> = args.get(2).and_then(|s| u64::from_str_radix(s, 16).ok());
-    std::panic::set_hook(Box::new(|_| {}));
+    if std::env::var("C05_PANIC_TRACE").is_err() {
+        std::panic::set_hook(Box::new(|_| {}));
+    }
     let mut ctx = Ctx { n, replay, idx: 0, total: 0, nontrivial: 0, failures: 0, printed: 0, max_print: std::env::var("C05_MAXFAIL").ok().and_then(|v| v.parse().ok()).unwrap_or(20), samples: 0 };
     family_h(&mut ctx);
     family_w_opaque(&mut ctx);
